@@ -139,16 +139,18 @@ def families(tier, seed):
     return fams
 
 
+def _wrap_public(name, post):
+    """twin helper: wrap the public function Geometry3D.<name> (the name the harness calls) with a result post-processor"""
+    orig = getattr(G, name)
+
+    def f(a, b):
+        return post(a, b, orig(a, b))
+    setattr(G, name, f)
+
+
 def _twin_touching_segments():
     """mutant: collinear segments that merely touch are reported as disjoint"""
-    import sys as _sys
-    it = _sys.modules['Geometry3D.calc.intersection']
-    orig = it.inter_segment_segment
-
-    def inter_segment_segment(a, b):
-        r = orig(a, b)
-        return None if isinstance(r, Point) and a.line == b.line else r
-    it.inter_segment_segment = inter_segment_segment
+    _wrap_public('intersection', lambda a, b, r: None if (isinstance(r, Point) and isinstance(a, Segment) and isinstance(b, Segment) and a.line == b.line) else r)
 
 
 TWINS = {'touching collinear segments -> None': (r'^Segment-Segment/collinear/axis/fwd$', _twin_touching_segments)}
